@@ -114,6 +114,8 @@ def run(ctx):
     ctx.rule('C03.g-truncated-input-zeroed', 'every truncated transform is given a buffer whose tail beyond truncated_size is zeroed: Naive and the optimised engines skip different dead butterflies, so they agree only under that precondition (clause shared with C05.c)')
     from . import c05
     ctx.guard('C03.analysable', ctx.shared, {'C05.c-truncated-ifft-zeroed': 'C03.g-truncated-input-zeroed'}, c05.ifft_rule, ctx, ctx.facts('x86_64'), 'x86_64')
+    ctx.rule('C03.h-split-borrow-consistency', 'where a function splits a buffer in two to borrow two ranges at once and does so differently in the two arms of an ordering test, both arms touch the same absolute positions (an index into the upper half counts from the split point)')
+    ctx.guard('C03.analysable', split_borrow_consistency, ctx, ctx.facts('x86_64'), 'x86_64')
     ctx.guard('C03.analysable', kernel_siblings, ctx, {c: ctx.facts(c) for c in cfgs})
     for cfg in cfgs:
         facts = ctx.facts(cfg)
@@ -776,3 +778,98 @@ def eval_poly(ctx, facts, cfg):
             ctx.violation(R, 'not-shared', '%s does not reach utils::eval_poly(erasures, truncated_size) through forwarding calls with its own arguments in order' % f.path,
                           site=f.span, fn=f.path, cfg=cfg)
     ctx.floor(R, 3 if cfg != 'aarch64' else 2, n, 'Engine::eval_poly bodies', cfg=cfg)
+
+
+# ------------------------------------------------------------------ (h)
+
+def split_borrow_consistency(ctx, facts, cfg):
+    """C03.h.  `if x < y { let (lo, hi) = d.split_at_mut(y); .. lo[x + i] .. hi[i] .. } else { let (lo, hi) = d.split_at_mut(x); .. }`:
+    each arm is rewritten with absolute positions (lo[e] -> d@e, hi[e] -> d@(s + e), ranges likewise) and the two rewritten arms must
+    be equal up to linear arithmetic.  No specification of the function is needed: the arms contradict each other or they do not."""
+    from .core import hcanon, strip_refs, is_range_struct
+    from .c05 import lin
+    R = 'C03.h-split-borrow-consistency'
+    n = 0
+
+    def split_let(st):
+        if st.get('k') != 'let' or 'init' not in st:
+            return None
+        pat, init = st['pat'], strip_refs(st['init'])
+        if pat.get('k') != 'tuple' or len(pat.get('pats', [])) != 2 or not all(q.get('k') == 'bind' for q in pat['pats']):
+            return None
+        if init.get('k') == 'mcall' and init.get('name') == 'split_at_mut' and len(init['args']) == 1:
+            return pat['pats'][0]['id'], pat['pats'][1]['id'], hcanon(init['recv']), hcanon(init['args'][0])
+        return None
+
+    def absolute(node, views):
+        """canonical form of an arm with view-relative accesses made absolute"""
+        if isinstance(node, list):
+            return tuple(absolute(x, views) for x in node)
+        if not isinstance(node, dict):
+            return node
+        node0 = strip_refs(node) if node.get('k') in ('addrof',) else node
+        if node0 is not node:
+            return absolute(node0, views)
+        k = node.get('k')
+        if k == 'index':
+            b = strip_refs(node['base'])
+            if b.get('k') == 'path' and b.get('res') == 'local' and b.get('id') in views:
+                base, off = views[b['id']]
+                rg = is_range_struct(node['idx'])
+                if rg is not None:
+                    lo = hcanon(rg[0]) if rg[0] is not None else ('const', 0)
+                    hi = hcanon(rg[1]) if rg[1] is not None else ('end',)
+                    return ('absrange', base, lin(('bin', 'Add', off, lo)), lin(('bin', 'Add', off, hi)) if hi != ('end',) else ('end',))
+                return ('abs', base, lin(('bin', 'Add', off, hcanon(node['idx']))))
+        if k == 'path' and node.get('res') == 'local':
+            if node.get('id') in views:
+                base, off = views[node['id']]
+                return ('view', base, lin(off))
+            return ('local', node.get('name'))
+        if k == 'block':
+            out = []
+            for st in node.get('stmts', []):
+                if split_let(st):
+                    continue
+                out.append(absolute(st, views))
+            if node.get('tail') is not None:
+                out.append(('tail', absolute(node['tail'], views)))
+            return ('block', tuple(out))
+        if k == 'bin' and not node.get('overloaded'):
+            return ('lin', lin(hcanon(node)))
+        out = [k]
+        for key in sorted(node):
+            if key in IGNORE_KEYS or key in ('k', 'name', 'mode') and k in ('bind',):
+                continue
+            if key in IGNORE_KEYS or key == 'k':
+                continue
+            v = node[key]
+            out.append((key, absolute(v, views) if isinstance(v, (dict, list)) else v))
+        return tuple(out)
+
+    def arm_views(block):
+        block = strip_refs(block)
+        if block.get('k') != 'block':
+            return None
+        for st in block.get('stmts', []):
+            sl = split_let(st)
+            if sl:
+                a, b, base, s_ = sl
+                return {a: (base, ('const', 0)), b: (base, s_)}
+        return None
+    for p, fn in sorted(facts.fns.items()):
+        if not fn.hir or not (p.startswith('engine::') or p.startswith('<engine::')):
+            continue
+        for node, _ in core.hir_find(fn.hir, lambda m: m.get('k') == 'if' and 'else' in m):
+            va, vb = arm_views(node['then']), arm_views(node['else'])
+            if va is None or vb is None:
+                continue
+            n += 1
+            fa, fb = absolute(strip_refs(node['then']), va), absolute(strip_refs(node['else']), vb)
+            d = first_diff(fa, fb)
+            if d is None:
+                ctx.ok(R, '%s@%s' % (p, cfg), {'test': core.hshow(hcanon(node['cond'])), 'arms': 'identical absolute accesses'})
+            else:
+                ctx.violation(R, 'arms-differ', 'the two arms of `if %s` in %s borrow the two halves of a split buffer but touch different absolute positions: one arm has %s where the other has %s'
+                              % (core.hshow(hcanon(node['cond'])), p, brief(d[1]) + ' (at %s)' % d[0], brief(d[2])), site=node.get('line') or fn.span, fn=p, cfg=cfg)
+    ctx.floor(R, 1, n, 'ordering tests with a split borrow in both arms', cfg=cfg)
